@@ -32,7 +32,7 @@ def regenerate(ctx):
 
 def one_shot_values(rng):
     items = [rng.choice([['int', 1], ['str', 'a'], ['int', 5]]) for _ in range(rng.randint(0, 3))]
-    shot = ['cont', rng.choice(['generator', 'list_iterator', 'UserIter', 'UserCont']), items]
+    shot = ['cont', rng.choice(['generator', 'list_iterator', 'UserIter', 'UserCont', 'UserSizedIter']), items]
     return [shot, ['cont', 'list', [shot]], ['cont', 'tuple', [shot, ['int', 3]]],
             ['map', rng.choice(['dict', 'defaultdict', 'UserMap']), [[['str', 'k'], shot]]],
             ['map', 'defaultdict', [[['str', 'k'], rng.choice([['int', 1], ['str', 'x']])], [['str', 'j'], ['int', 2]]]],
@@ -73,7 +73,7 @@ def run(ctx):
     regenerate(ctx)
     proof_err = None
     try:
-        ctx.prove(PROP)
+        ctx.prove(PROP, extra_targets=['theories/Core/Corr.vo', 'theories/Core/Cost.vo'])
     except CoqFailure as e:
         proof_err = e
     failures = 0
